@@ -981,3 +981,98 @@ theorem runPatch_eq_runRfc (ops : List OpObj) : ∀ (d : Node), d.Valid → (∀
     | some d' => simp only [ofSpec]; rw [ih d' (rfc6902_valid ho hd hr) hrest]
 
 end Ytk.Patch
+
+namespace Ytk.Patch
+open Ytk.Ptr
+
+/-! ## facts about the reference itself -/
+
+theorem insertAt_eq_insertIdx {xs : List Node} {i : Nat} (h : i ≤ xs.length) (v : Node) :
+    insertAt xs i v = xs.insertIdx i v := by
+  induction xs generalizing i with
+  | nil =>
+    have : i = 0 := by simpa using h
+    subst this; simp [insertAt]
+  | cons x xs ih =>
+    cases i with
+    | zero => simp [insertAt]
+    | succ j =>
+      have hj : j ≤ xs.length := by simpa using h
+      have := ih hj
+      simp only [insertAt] at this
+      simp [insertAt, List.insertIdx_succ_cons, this]
+
+theorem rAdd_list {d : Node} {p : Path} {xs : List Node} {i : Nat} (v : Node) (hp : p ≠ [])
+    (htok : ∀ t ∈ p, tokOk t = true) (hpar : getTok d (parent p) = some (.list xs))
+    (hi : canonIdx (lastSegment p) = some i) (hle : i ≤ xs.length) :
+    rAdd d p v = some (setAt d (parent p) (.list (insertAt xs i v))) ∧
+    getTok (setAt d (parent p) (.list (insertAt xs i v))) (parent p) = some (.list (insertAt xs i v)) := by
+  refine ⟨?_, get_setAt _ d _ _ (parent_tokOk htok) hpar⟩
+  unfold rAdd
+  rw [modify_eq _ p d hp htok, hpar]
+  simp [addLast, hi, hle]
+
+theorem rRemove_list {d : Node} {p : Path} {xs : List Node} {i : Nat} (hp : p ≠ [])
+    (htok : ∀ t ∈ p, tokOk t = true) (hpar : getTok d (parent p) = some (.list xs))
+    (hi : canonIdx (lastSegment p) = some i) (hlt : i < xs.length) :
+    rRemove d p = some (setAt d (parent p) (.list (xs.eraseIdx i))) ∧
+    getTok (setAt d (parent p) (.list (xs.eraseIdx i))) (parent p) = some (.list (xs.eraseIdx i)) := by
+  refine ⟨?_, get_setAt _ d _ _ (parent_tokOk htok) hpar⟩
+  unfold rRemove
+  rw [modify_eq _ p d hp htok, hpar]
+  simp [removeLast, hi, hlt]
+
+theorem isProperPrefix_iff (f p : Path) : isProperPrefix f p = true ↔ ∃ r, r ≠ [] ∧ p = f ++ r := by
+  induction f generalizing p with
+  | nil =>
+    cases p with
+    | nil => simp [isProperPrefix]
+    | cons b bs => simp [isProperPrefix]
+  | cons a as ih =>
+    cases p with
+    | nil => simp [isProperPrefix]
+    | cons b bs =>
+      simp only [isProperPrefix, Bool.and_eq_true, beq_iff_eq, ih bs, List.cons_append, List.cons.injEq]
+      constructor
+      · rintro ⟨rfl, r, hr, rfl⟩; exact ⟨r, hr, rfl, rfl⟩
+      · rintro ⟨r, hr, rfl, rfl⟩; exact ⟨rfl, r, hr, rfl⟩
+
+/-- after a successful add the value is found at the location -/
+theorem getTok_rAdd {d d' v : Node} {p : Path} (hp : p ≠ []) (htok : ∀ t ∈ p, tokOk t = true)
+    (h : rAdd d p v = some d') : getTok d' p = some v := by
+  unfold rAdd at h
+  rw [modify_eq _ p d hp htok] at h
+  cases hpar : getTok d (parent p) with
+  | none => rw [hpar] at h; cases h
+  | some par =>
+    rw [hpar] at h
+    simp only [] at h
+    cases ha : addLast par (lastSegment p) v with
+    | none => rw [ha] at h; cases h
+    | some par' =>
+      rw [ha] at h
+      simp only [Option.map_some, Option.some.injEq] at h
+      subst h
+      rw [getTok_parent_last _ hp, get_setAt _ d par par' (parent_tokOk htok) hpar]
+      simp only []
+      cases par with
+      | leaf s => simp [addLast] at ha
+      | cont kvs =>
+        simp only [addLast, Option.some.injEq] at ha
+        subst ha
+        simp [stepRef, AMap.get?_insert_self]
+      | list xs =>
+        simp only [addLast] at ha
+        cases hci : canonIdx (lastSegment p) with
+        | none => rw [hci] at ha; cases ha
+        | some i =>
+          rw [hci] at ha
+          simp only [] at ha
+          split at ha
+          · rename_i hle
+            cases ha
+            simp only [stepRef, hci]
+            rw [insertAt_eq_insertIdx hle, List.getElem?_insertIdx_self, if_pos hle]
+          · cases ha
+
+end Ytk.Patch
